@@ -68,6 +68,13 @@ def gen_cases(tier, seed):
     return cases
 
 
+def _pd(walkers, nw):
+    """a prop_data with the per-walker arrays the sampler always carries (placeholders where the value is irrelevant for the clause at hand)"""
+    import jax.numpy as jnp
+
+    return {"walkers": walkers, "overlaps": jnp.ones(nw, dtype=complex), "weights": jnp.ones(nw)}
+
+
 def make_batch(rng, norb, n, nw, cond):
     w = rng.normal(size=(nw, norb, n)) + 1j * rng.normal(size=(nw, norb, n))
     if n == 0:
@@ -120,8 +127,8 @@ def run_qr(case):
             (qu, qd), norms = linalg_utils.qr_vmap_uhf([jnp.array(up), jnp.array(dn)])
             qu, qd, norms = np.asarray(qu), np.asarray(qd), np.asarray(norms)
             prop = propagation.propagator_unrestricted(n_walkers=nw)
-            pd = prop.orthonormalize_walkers({"walkers": [jnp.array(up), jnp.array(dn)]})
-            pd2, norms2 = prop._orthogonalize_walkers({"walkers": [jnp.array(up), jnp.array(dn)]})
+            pd = prop.orthonormalize_walkers(_pd([jnp.array(up), jnp.array(dn)], nw))
+            pd2, norms2 = prop._orthogonalize_walkers(_pd([jnp.array(up), jnp.array(dn)], nw))
             same = (np.allclose(np.asarray(pd["walkers"][0]), qu, atol=1e-13) and np.allclose(np.asarray(pd2["walkers"][1]), qd, atol=1e-13)
                     and np.allclose(np.asarray(norms2), norms, rtol=1e-12))
             blocks = [(up, qu, norms[0]), (dn, qd, norms[1])]
@@ -129,7 +136,7 @@ def run_qr(case):
             q_, nr = linalg_utils.qr_vmap(jnp.array(up))
             q_, nr = np.asarray(q_), np.asarray(nr)
             prop = propagation.propagator_restricted(n_walkers=nw)
-            pd = prop.orthonormalize_walkers({"walkers": jnp.array(up)})
+            pd = prop.orthonormalize_walkers(_pd(jnp.array(up), nw))
             same = np.allclose(np.asarray(pd["walkers"]), q_, atol=1e-13)
             blocks = [(up, q_, nr)]
             qu, qd = q_, q_
@@ -201,7 +208,7 @@ def run_qr(case):
         prop = propagation.propagator_restricted(n_walkers=nw)
         # column norms deliberately not in decreasing order
         upo = up * (10.0 ** rng.uniform(-1, 1, size=(nw, 1, na)))
-        pdq = prop.orthonormalize_walkers({"walkers": jnp.array(upo)})
+        pdq = prop.orthonormalize_walkers(_pd(jnp.array(upo), nw))
         qo = np.asarray(pdq["walkers"])
         r_par = r_e = r_f = 0.0
         n_meas = 0
